@@ -434,20 +434,39 @@ fn program_writes(p: &str) -> bool {
     p.contains('=') || p.contains("del(") || p.contains(" * ")
 }
 
-/// Some line of `y` carries a comment containing `: ` (or ending in `:`) while the text
-/// before the comment has no `key:` of its own.
-fn keyless_line_with_colon_comment(y: &[u8]) -> bool {
+/// `y` with the comment removed from every line whose comment contains `: ` (or ends in
+/// `:`) while the text before the comment has no `key:` of its own; None if there is no such line.
+fn strip_colon_comments_on_keyless_lines(y: &[u8]) -> Option<Vec<u8>> {
     let t = String::from_utf8_lossy(y);
-    t.lines().any(|line| {
-        let at = match (line.find(" #"), line.find("\t#")) {
-            (Some(a), Some(b)) => a.min(b),
-            (Some(a), None) | (None, Some(a)) => a,
-            _ => return false,
+    let mut out = String::with_capacity(t.len());
+    let mut found = false;
+    for line in t.split_inclusive('\n') {
+        let (body, nl) = match line.strip_suffix('\n') {
+            Some(b) => (b, "\n"),
+            None => (line, ""),
         };
-        let (pre, comment) = line.split_at(at);
-        let has_colon = |s: &str| s.contains(": ") || s.contains(":\t") || s.trim_end().ends_with(':');
-        has_colon(comment) && !has_colon(pre)
-    })
+        let at = match (body.find(" #"), body.find("\t#")) {
+            (Some(a), Some(b)) => Some(a.min(b)),
+            (Some(a), None) | (None, Some(a)) => Some(a),
+            _ => None,
+        };
+        if let Some(at) = at {
+            let (pre, comment) = body.split_at(at);
+            let has_colon = |s: &str| s.contains(": ") || s.contains(":\t") || s.trim_end().ends_with(':');
+            if has_colon(comment) && !has_colon(pre) {
+                found = true;
+                out.push_str(pre);
+                out.push_str(nl);
+                continue;
+            }
+        }
+        out.push_str(line);
+    }
+    if found {
+        Some(out.into_bytes())
+    } else {
+        None
+    }
 }
 
 fn tmp_named(stem: &str, ext: &str, data: &[u8]) -> std::path::PathBuf {
@@ -569,11 +588,25 @@ fn check_once(case: &Case, indent: u8, st: &mut Stats) -> Result<Outcome, Fail> 
         return Err(crash_fail("reread", &r, case));
     }
     if !r.ok() {
-        if err_head(&r).contains("key without value") && keyless_line_with_colon_comment(&y.stdout) {
+        if let Some(y2) = strip_colon_comments_on_keyless_lines(&y.stdout) {
             // documented loader limitation (docs/compliance/yaml/limitations.md, "A key run
-            // that ends before its `:`": `b #c: d` -> KeyWithoutValue): a comment containing
-            // `: ` was re-emitted on a line that has no `key:` of its own
-            return Ok(Outcome::DocumentedLimit);
+            // that ends before its `:`": `b #c: d` -> KeyWithoutValue; `- *a #c:` fails the
+            // same way with "expected ':' after key"): a comment containing `: ` (or ending
+            // in `:`) was re-emitted on a line that has no `key:` of its own. Counted as
+            // such only if the output reads back correctly once just those comments are cut.
+            let yf2 = tmp_named("c15y", ".yaml", &y2);
+            let r2 = spawn(&["yq", "-o", "json", "-I0", ".", &yf2.to_string_lossy()]);
+            st.evals(1);
+            let _ = std::fs::remove_file(&yf2);
+            if let Some(r2) = r2 {
+                if r2.ok() {
+                    if let Ok(v2) = jsonval::parse_stream(&r2.stdout) {
+                        if v2.len() == jvals.len() && v2.iter().zip(jvals.iter()).all(|(a, b)| j_eq(a, b)) {
+                            return Ok(Outcome::DocumentedLimit);
+                        }
+                    }
+                }
+            }
         }
         if err_head(&r).contains("unknown anchor") {
             // an alias without its anchor: name the route (DOM path after a write, or the
@@ -1082,7 +1115,10 @@ pub fn run(cx: &mut Ctx) {
         Budget { quick: 1_200, thorough: 40_000, max_len: 400 },
         matrix_case,
     );
-    for cl in ["value-in-block", "value-in-flow", "key-in-block", "key-in-flow", "class:leading-space", "class:number-like", "class:null-bool-word", "class:line-break", "class:indicator-start", "class:colon-space"] {
+    for cl in ["value-in-block", "value-in-flow", "key-in-block", "key-in-flow"] {
+        cx.require_class("quoting-matrix", cl, 50);
+    }
+    for cl in ["class:number-like", "class:null-bool-word", "class:line-break", "class:indicator-start", "class:empty", "class:other"] {
         cx.require_class("quoting-matrix", cl, 5);
     }
     // everything un-avoided whose failures the oracle can attribute by itself
